@@ -18,6 +18,52 @@ from unord import Unord
 PROP = "C09"
 
 
+
+def check_harvest_reaches_record(P, rule):
+    """resolve_types_lazily: what extract_type_names harvests from a field reaches the set that is recorded as the type's dependencies and queued
+    for resolution — either it is harvested straight into that set, or it is merged into it (extend) on every path of the same iteration.
+    A merge that can be skipped (`continue` when the field mentions a mapped type, a size test, ...) loses the other names of that field."""
+    from unord import Unord
+    for f in P.find("CommandAnalyzer::resolve_types_lazily"):
+        base = lambda op: Unord._base_local(None, f, op)
+        ad = [c for c in f.calls if short_path(c.best) == "TypeDependencyGraph::add_dependencies" and c.bb in f.reach_blocks]
+        hv = [c for c in f.calls if short_path(c.best) == "CommandAnalyzer::extract_type_names" and c.bb in f.reach_blocks]
+        if not ad or not hv:
+            rule.bad(V(rule.id, f.id, "harvest-anchors:%d:%d" % (len(hv), len(ad)), "resolve_types_lazily: %d harvest calls, %d add_dependencies calls" % (len(hv), len(ad))))
+            continue
+        recs = set()
+        for a in ad:
+            o = a.args[-1]
+            oo = f.origin(o)
+            while oo[0] == "proj":
+                oo = oo[1]
+            if oo[0] == "call" and oo[1].name in ("clone", "to_owned") and oo[1].args:
+                recs.add(base(oo[1].args[0]))
+            else:
+                recs.add(base(o))
+        for h in hv:
+            acc = base(h.args[-1])
+            if acc in recs:
+                rule.ok("field types are harvested straight into the recorded dependency set")
+                continue
+            merges = [c for c in f.calls if c.name in ("extend", "union", "append") and c.bb in f.reach_blocks and len(c.args) >= 2
+                      and base(c.args[0]) in recs and base(c.args[1]) == acc and f.dominates(h.bb, c.bb)]
+            if not merges:
+                rule.bad(V(rule.id, f.id, "harvest-not-recorded", "the names harvested from a field go into a set that is never merged into the recorded dependency set", h.file, h.line))
+                continue
+            for m in merges:
+                # between the harvest and the merge (same iteration) nothing may divert control
+                skips = []
+                for (bb, keep, lose) in f.filter_branches(h.target if h.target is not None else h.bb, m.bb, stops=f.natural_loop_heads(h.bb)):
+                    for lab in lose:
+                        o, outcome = f.cond_struct(bb, lab)
+                        skips.append("%s=%s" % (f.describe_origin(o)[:50], outcome))
+                if skips:
+                    rule.bad(V(rule.id, f.id, "harvest-conditionally-merged", "the names harvested from a field are merged into the dependency set only on some paths (skipped when %s): "
+                               "the other types of that field are neither recorded as dependencies nor resolved" % "; ".join(sorted(set(skips)))[:160], m.file, m.line))
+                else:
+                    rule.ok("harvested field types are merged into the recorded set unconditionally")
+
 def check(ctx):
     P = ctx.P
     S = ctx.S
@@ -225,6 +271,7 @@ def check(ctx):
                     src = f.describe_origin(f.origin(f.call_at(max(heads, key=lambda h: len(f.dom[h]))).args[0]), deep=4)
                     if "StructInfo.fields" in src and not re.search(r"\b(take|skip|filter\w*|step_by)\(", src):
                         okf = True
+        check_harvest_reaches_record(P, r4)
         if okf:
             r4.ok("deps harvested from every field's rust_type")
         else:
